@@ -347,6 +347,23 @@ pub fn seeds_upto(n: usize) -> Vec<Vec<Op>> {
     out
 }
 
+/// `seeds_upto(n)` plus layouts whose data already lies in the last level (one run there, and one
+/// run there with a newer L0 run on top).
+pub fn seeds_with_deep(n: usize) -> Vec<Vec<Op>> {
+    let g = coarse_generators();
+    let mut out = seeds_upto(n);
+    let mut deep: Vec<Op> = g[0].clone();
+    deep.extend(g[2].iter().cloned());
+    let mut deep2 = deep.clone();
+    deep2.extend(g[0].iter().cloned());
+    for s in [deep, deep2] {
+        if !out.contains(&s) {
+            out.push(s);
+        }
+    }
+    out
+}
+
 #[derive(Clone, Copy, Debug, PartialEq, Eq)]
 pub enum OracleKind {
     C01,
